@@ -231,7 +231,7 @@ Definition src_reregister (e : env) (x : src) (f : factory) : rr * src * env :=
   end.
 Definition src_unregister (e : env) (x : src) : bool * src * env :=
   match x with
-  | SComp lc own subs => let '(ok, subs', e') := subs_unregister e subs in (ok, SComp lc own subs', e')
+  | SComp lc own subs => let '(ok, subs', e') := subs_unregister e subs in (ok, SComp lc None subs', e')
   | SPing g => let '(ok, g', e') := gen_unregister e g in (ok, SPing g', e')
   | SChan c g => let '(ok, g', e') := gen_unregister e g in (ok, SChan c g', e')
   | STimer t => let (t', e') := timer_unregister e t in (true, STimer t', e')
